@@ -118,6 +118,44 @@ class Tables(Case):
         return [closed_tbox(n, kchunk, v) for v in range(256)]
 
 
+class TablesHistory(Case):
+    """tables generated for key B after tables were generated for a related key A in the same process (caches keyed by a part of the
+    key would show here): every T-box of every round for B, at a SYMBOLIC byte index, equals the closed form for B's round key"""
+    prop = 'C18'
+    name = 'C18.tables_history'
+    kind = 'I'
+    timeout_s = 600
+    bounds = ('table_rKT(r,B) after table_rKT(r,A) for key pairs (A,B) that differ only in the top bit of each byte, only in the parity bits, only in one middle bit, or are equal / weak keys; every round 0..15 (quick: 0,1,15), '
+              'T-boxes 0..7, SYMBOLIC byte index: entry == closed form over the real DES S-box with B\'s round key')
+
+    def shapes(self, tier):
+        pairs = [('0123456789abcdef', '8123456789abcdef'), ('0123456789abcdef', '81a3c5e709abcdef'), ('0123456789abcdef', '0022446688aaccee'),
+                 ('0123456789abcdef', '0123456789abcdff'), ('0101010101010101', 'fefefefefefefefe'), ('0123456789abcdef', '0123456789abcdef')]
+        for a, b in pairs:
+            for r in ((0, 1, 15) if tier == 'quick' else range(16)):
+                yield dict(a=a, b=b, r=r)
+
+    def mk(self, shape, src):
+        return (src.int('x', 8),)
+
+    def impl(self, shape, args):
+        import crysp.wb as wb
+        from crysp.bits import Bits
+        A, B = Bits(bytes.fromhex(shape['a']), 64), Bits(bytes.fromhex(shape['b']), 64)
+        for r in range(16):
+            wb.table_rKT(r, A)
+        rks, rkt = wb.table_rKT(shape['r'], B)
+        return [getitem(list(rkt[n]), args[0]) for n in range(12)]
+
+    def spec(self, shape, args):
+        import crysp.des as des
+        from crysp.bits import Bits
+        B = Bits(bytes.fromhex(shape['b']), 64)
+        fk = des.subkey(des.PC1(B), shape['r'])
+        nfk = fk.split(6)
+        return [closed_tbox(n, nfk[n].ival if n < 8 else 0, args[0]) for n in range(12)]
+
+
 class Enc(Case):
     prop = 'C18'
     name = 'C18.enc'
@@ -172,5 +210,5 @@ class Enc(Case):
         return _b(RC.des_crypt(list(K), list(B), False, lv))
 
 
-for c in (Tables, Enc):
+for c in (Tables, TablesHistory, Enc):
     register(c())
